@@ -12,6 +12,7 @@ CHECK = {
         "file contents live in a trivially correct in-memory FilePool (the block device pool is C15's subject); only package virtual is under test",
         "VirtualSetAttributes of a directory with a size is accepted as EINVAL (the code's choice) or EISDIR (POSIX truncate); chown of directories and files is EPERM, as the tree's own tests document",
         "leaf calls: VirtualRead/VirtualSeek only on a file opened with the read bit, VirtualWrite/VirtualAllocate only with the write bit (the front ends guarantee it), no open outlives a step; VirtualOpenSelf and VirtualSetAttributes also on files that were unlinked everywhere (ESTALE where the pool file is needed); share masks 0 and masks with unknown bits (4, 7) are passed to VirtualOpenSelf/VirtualClose in pairs (the code counts set bits); one-shot failures of the pool file's ReadAt/WriteAt (also short writes)/Truncate/GetNextRegionOffset must surface as EIO and leave the file as the pool file left it",
+        "named attributes (NFSv4 OPENATTR, NFS handle allocator only; wiring and generator restrictions as stated for C14): VirtualOpenNamedAttributes answers NOENT without createDirectory while no attribute directory exists, creates it with createDirectory, hands out the same directory object from then on, WRONG_TYPE for nodes inside an attribute directory, ACCESS/NOENT for symlinks, FIFOs and sockets (named_attributes_factory.go, placeholder_file.go); the attribute directory is modelled as one more directory of the reference tree (always case sensitive, no hidden files) that is emptied recursively and tombstoned when its owner loses its last link / is removed; isInNamedAttributeDirectory is true exactly for nodes of attribute directories; hasNamedAttributes equals 'the attribute directory exists and is not empty' (inMemoryNamedAttributes.VirtualGetAttributes) and is NOT compared while the attribute directory is still uninitialised, i.e. touched by nothing but OPENATTR (the code answers true there; vfsdir/FINDINGS.md note N1); OPENATTR on nodes that no longer exist is not generated",
         "sizes: names from {a,b,A,c,.hidden}, at most 6 live directories plus removed ones still referenced, lazy specs of depth <= 2, listing page sizes 1-3, at most 3 open listings; one case in six uses the wide profile (16 names, one directory filled to 12-16 entries, page sizes 1-8 and 'all', at most 4 open listings, three in ten cursor steps rewind)",
     ],
     "tests": [
